@@ -427,6 +427,7 @@ func c18(r *ev.Result, tier string) {
 		r.Set("payloads_with_the_generator_in_"+loc, len(lcases))
 	}
 	c18FromSeam(r, base)
+	c18Program(r, base)
 	r.Sample(4, map[string]any{"doc_line": "# TABDOC: '\\''", "class": "breaker-name", "shells": "dash, bash"})
 	r.Sample(4, map[string]any{"doc_line": "# TABDOC: fn $`(", "class": "as-description"})
 	r.Sample(4, map[string]any{"doc_lines": menu[:3], "class": "row-set"})
@@ -602,4 +603,66 @@ func c18FromSeam(r *ev.Result, base string) {
 		r.Distinct += len(cases)
 	}
 	r.Set("from_seam_source_sequences", len(jobs))
+}
+
+// c18Program: the payload `curlrevshell -print-ctrl-i` prints, with -ctrl-i
+// given once and twice: the tab_list a shell ends up with (the last definition
+// in the payload) lists the TABDOC lines of that whole payload.
+func c18Program(r *ev.Result, base string) {
+	bin := binPath("curlrevshell")
+	if _, err := os.Stat(bin); nil != err {
+		r.Set("program_print_ctrl_i", "not run: "+err.Error())
+		return
+	}
+	root := filepath.Join(base, "program")
+	dir := filepath.Join(root, "funcs")
+	os.MkdirAll(dir, 0o755)
+	defer os.RemoveAll(root)
+	os.WriteFile(filepath.Join(dir, "a.sh"), []byte("# TABDOC: ports list listening ports\nports() { :; }\n# TABDOC: whoall who's logged in\nwhoall() { :; }\n"), 0o644)
+	os.WriteFile(filepath.Join(root, "loot.sh"), []byte("# TABDOC: loot grab the goods\nloot() { :; }\n"), 0o644)
+	var (
+		cases []c18Case
+		funcs [][]byte
+	)
+	for _, srcs := range [][]string{{dir}, {filepath.Join(root, "loot.sh")}, {dir, filepath.Join(root, "loot.sh")}, {filepath.Join(root, "loot.sh"), dir}} {
+		args := []string{"-print-ctrl-i"}
+		for _, s := range srcs {
+			args = append(args, "-ctrl-i", s)
+		}
+		cmd := exec.Command(bin, args...)
+		cmd.Env = append(os.Environ(), "HOME="+root, "CURLREVSHELL_LOG=")
+		out, err := cmd.Output()
+		if nil != err {
+			r.Violate(ev.Violation{Signature: "program/print-ctrl-i-failed", What: fmt.Sprintf("curlrevshell %v: %v", args, err), Kind: "c18from", Replay: map[string]any{"sources": srcs}})
+			continue
+		}
+		i := bytes.LastIndex(out, []byte(shellfuncsfile.ListFuncName+"() {"))
+		if i < 0 {
+			r.Violate(ev.Violation{Signature: "program/no-listing", What: fmt.Sprintf("curlrevshell %v: no %s in what was printed", args, shellfuncsfile.ListFuncName), Kind: "c18from", Replay: map[string]any{"sources": srcs}})
+			continue
+		}
+		c := c18Case{Class: "program", Sources: srcs, Lines: []string{}}
+		for _, l := range strings.Split(string(out), "\n") {
+			if strings.HasPrefix(l, shellfuncsfile.DocPrefix) {
+				c.Lines = append(c.Lines, strings.TrimPrefix(l, shellfuncsfile.DocPrefix))
+			}
+		}
+		cases = append(cases, c)
+		funcs = append(funcs, out[i:])
+	}
+	for _, shell := range []string{"dash", "bash"} {
+		d := filepath.Join(base, "program-"+shell)
+		os.MkdirAll(d, 0o755)
+		obs, stderr, err := c18RunBatch(shell, d, funcs)
+		if nil != err || "" != strings.TrimSpace(stderr) {
+			r.Violate(ev.Violation{Signature: "program/driver", What: fmt.Sprintf("%s could not run the listings printed by the program: %v %q", shell, err, trunc80(stderr)), Kind: "c18from", Replay: map[string]any{"sources": "all"}})
+			continue
+		}
+		for i := range cases {
+			c18Judge(r, shell, cases[i], funcs[i], obs[i], "", false)
+		}
+		r.Evaluations += len(cases)
+		r.Distinct += len(cases)
+	}
+	r.Set("program_print_ctrl_i_runs", len(cases))
 }
